@@ -126,6 +126,12 @@ func c08exec(c *vt.Ctx, r c08run) (prof c08profile) {
 		case "send-err":
 			faults = append(faults, vchan.Fault{Op: vchan.OpSend, N: r.cause.k, Err: errC08})
 		}
+		// in a third of the scenarios the channel's Close reports an error of its own (a reset
+		// socket, a failed final flush): that is not the cause the server stopped for
+		if vt.Hash64(fmt.Sprint("closeerr", r.sc.name, r.cause, r.post, r.pipeLike))%3 == 0 {
+			faults = append(faults, vchan.Fault{Op: vchan.OpClose, N: 1, Err: errors.New("c08: close: connection reset by peer")})
+			c.Count("sessions_whose_close_fails", 1)
+		}
 		// every other scenario hands the server its channel as a non-comparable struct value
 		// (as channel.RawJSON's is) instead of a pointer
 		byValue := vt.Hash64(fmt.Sprint(r.sc.name, r.cause, r.post, r.pipeLike))%2 == 0
